@@ -56,14 +56,19 @@ def run(ctx):
     for a in range(-6, 7):
         for b in range(-6, 7):
             lines.append("S %d %d" % (a, b))
+    # Aggregate<T> for T in long long / int / double / float / unsigned; values of both signs (all-negative, all-zero and mixed lists included)
     small = [list(c) for n in range(0, 3) for c in itertools.product((0, 1, 5), repeat=n)]
-    for xs in small:
-        for ys in small:
-            lines.append("A %d %s %d %s" % (len(xs), " ".join(map(str, xs)), len(ys), " ".join(map(str, ys))))
-    for i in range(100 if quick else 3000):
-        xs = [rng.randint(0, 20) for _ in range(rng.randint(0, 6))]
-        ys = [rng.randint(0, 20) for _ in range(rng.randint(0, 6))]
-        lines.append("A %d %s %d %s" % (len(xs), " ".join(map(str, xs)), len(ys), " ".join(map(str, ys))))
+    smalln = [list(c) for n in range(0, 3) for c in itertools.product((-7, -1, 0, 3), repeat=n)]
+    for ty in "qidfu":
+        for xs in (small if ty == "u" else smalln):
+            for ys in (small if ty in "uq" else smalln):
+                lines.append("A %s %d %s %d %s" % (ty, len(xs), " ".join(map(str, xs)), len(ys), " ".join(map(str, ys))))
+    for i in range(300 if quick else 6000):
+        ty = "qidfu"[i % 5]
+        lo, hi = rng.choice([(0, 20), (-20, 20), (-20, -1), (-20, 0)]) if ty != "u" else (0, 20)
+        xs = [rng.randint(lo, hi) for _ in range(rng.randint(0, 6))]
+        ys = [rng.randint(lo, hi) for _ in range(rng.randint(0, 6))]
+        lines.append("A %s %d %s %d %s" % (ty, len(xs), " ".join(map(str, xs)), len(ys), " ".join(map(str, ys))))
     for ln in lines:
         ctx.count_case(ln, nontrivial=not ln.endswith(" 0"))
     ctx.cov["exhaustive_widths"] = [8] if quick else [8, 16]
